@@ -1,4 +1,5 @@
 import TD.C10.Lemmas
+import TD.C10.Compose
 
 /-!
 # C10 — LAS written by TotalDepth reads back as the same log
@@ -6,6 +7,7 @@ import TD.C10.Lemmas
 Property theorems only.  The model (`TD.C10.Model`) transcribes the frame-array writers of
 `TotalDepth/LAS/core/WriteLAS.py`; `TD.C10.Spec` holds the independent side (`specSel`, `splitWs`, `parseDec`).
 The model is tied to the Python source by the correspondence run of `./check C10`.
+The last section composes the writer model with the READER model of C09 (`TD.C10.Compose`).
 
 Not proved here (exercised by the harness only): the float64 rounding inside `np.mean`/`np.median`, and that
 CPython's `format(float, '.nf')` is `fmtFixed` of the exact binary value.
@@ -390,5 +392,36 @@ theorem reduce_mem (m : Reduction) (hm : m.isAverage = false) (xs : List Rat) (v
 
 example : reduce .min [3, -2, 7 / 3] = some (-2) ∧ reduce .max [3, -2, 7 / 3] = some 3 ∧
     reduce .median [1, 10, 5 / 2, 3] = some (11 / 4) ∧ reduce .mean [1, 2] = some (3 / 2) := by decide +kernel
+
+
+/-! ## composition with the reader model of C09 (`TD.C09`, tied to `LASRead.py` by the C09 correspondence run) -/
+
+/-- **round trip of one row through the C09 reader, tokens**: `str.split()` as modelled in C09 (all ASCII white
+space, the terminating line feed included) applied to a printed data row gives back exactly the field texts, whatever
+the field width. -/
+theorem roundtrip_row_tokens (w : Nat) (cols : List Col) (hidx : (cols.map (·.1)).Pairwise (· < ·))
+    (hg : ∀ p ∈ cols, p.2 ≠ [] ∧ ∀ c ∈ p.2, TD.C09.isSpace c = false) :
+    TD.C09.splitWs (rowLine w cols ++ ['\n']) = cols.map (·.2) :=
+  c09_split_rowLine w cols hidx hg
+
+/-- **round trip of one float value through the C09 reader**: `_convert_value` as modelled in C09 applied to the
+text printed for `v` with `d` decimals is a decimal `m·10^-d` within half a unit of the last printed decimal of `v`;
+the text is a single token for the C09 tokeniser. -/
+theorem roundtrip_value (negz : Bool) (v : Rat) (d : Nat) :
+    ∃ m : Int, TD.C09.convertValue (fmtFixed negz v d) = .num m (-(d : Int)) ∧
+      |(m : Rat) / (10 : Rat) ^ d - v| ≤ 1 / (2 * (10 : Rat) ^ d) ∧
+      (fmtFixed negz v d ≠ [] ∧ ∀ c ∈ fmtFixed negz v d, TD.C09.isSpace c = false) := by
+  refine ⟨roundHalfEven (v * (10 : Rat) ^ d), c09_convert_fmtFixed negz v d, ?_, c09Text_fmtFixed negz v d⟩
+  obtain ⟨p, hp, hb⟩ := print_error negz v d
+  rw [parseDec_fmtFixed] at hp
+  injection hp with hp
+  rw [hp]; exact hb
+
+/-- **round trip of one integer value through the C09 reader**: exact. -/
+theorem roundtrip_int (n : Int) : TD.C09.convertValue (intText n) = .num n 0 := c09_convert_intText n
+
+example : TD.C09.convertValue (fmtFixed false (1 / 8) 2) = .num 12 (-2) ∧
+    TD.C09.splitWs (rowLine 6 [(0, "2889.40".toList), (1, "-999.250".toList), (3, "7".toList)] ++ ['\n']) =
+      ["2889.40".toList, "-999.250".toList, "7".toList] := by decide +kernel
 
 end TD.C10
